@@ -84,7 +84,7 @@ def run(ctx, driver):
     quick = ctx.tier == "quick"
     ctx.rule = ("generated systems (17 coupling shapes x random spelling x entry order) x flags (disable_analytic_solver, preserve_expressions False/True/list, "
                 "5 simplify_expression settings), 20% with a function-of-time entry read by another equation; distinct = distinct (input, flags); "
-                "non-trivial = at least one variable in a numeric solver")
+                "non-trivial = at least one variable in a numeric solver; targeted: first-order equations that refer to a derivative, preserved under a custom marker; two first-order variables of which one name is a prefix of the other, the shorter preserved; glue correspondence of the preserve_expressions block")
     cases = _shared.gen_cases(ctx, ctx.n(130, 3000), flags=_flags, extra=_extra)
     results = _shared.run_full(ctx, cases, timeout=50)
     for case, res in zip(cases, results):
